@@ -1,7 +1,55 @@
-(* C12 — pipeline placeholder; replaced by the real statements *)
-From Gdsl.Model Require Import Base NodeOps.
-From Gdsl.Proofs Require Import NodeLemmas.
+(* C12 — Serialisation round-trips to an identical graph.
+   Model: coq/model/Serde.v: `decompose h g order` is graph_serde_decompose (members in the container's observed order; per
+   member the edges it lists first: outgoing (directed) / the half-edges it created (undirected, after the D13 repair));
+   `rebuild` is the Deserialize visitor. The wire codecs (serde_json, serde_cbor) are outside the model: documents are the
+   (nodes, edges) lists. Hypotheses: Inv h, GraphOK, Closed (every neighbour of a member is a member — otherwise the
+   document names an undeclared key and rebuild returns an error, which is C13), any iteration order. *)
+From Gdsl.Model Require Import Spec Serde.
+From Gdsl.Proofs Require Import SerdeProof.
 
-Theorem C12_placeholder_to_nil : forall (E : Type) v, to_ v (@nil (nat * E)) = [].
-Proof. exact to_nil. Qed.
-Print Assumptions C12_placeholder_to_nil.
+(* directed: same keys, same node values, and for every node the same outgoing edges (target key, value) in the same order; the result satisfies the mirror invariant *)
+Theorem c12_roundtrip_directed :
+  forall (K V E : Type) (keqb : K -> K -> bool),
+       KeqbSpec keqb ->
+       forall (h : heap K V E) (g : graph K) (order : list K),
+       Inv h ->
+       GraphOK h g ->
+       Closed h g ->
+       OrderOK g order ->
+       exists (h' : heap K V E) (g' : graph K),
+         rebuild keqb (fst (decompose keqb h g order)) (snd (decompose keqb h g order)) = DeOk h' g' /\
+         Inv h' /\
+         GraphOK h' g' /\
+         (forall k : K, g_contains keqb g' k = g_contains keqb g k) /\
+         (forall (k : K) (u u' : nat),
+          g_get keqb g k = Some u ->
+          g_get keqb g' k = Some u' ->
+          valof h' u' = valof h u /\
+          map (fun p : nat * E => (keyof h' (fst p), snd p)) (outs h' u') =
+          map (fun p : nat * E => (keyof h (fst p), snd p)) (outs h u)).
+Proof. exact roundtrip_directed. Qed.
+Print Assumptions c12_roundtrip_directed.
+
+(* undirected: same keys and values, and for every node the same multiset (Permutation) of incident half-edges with values *)
+Theorem c12_roundtrip_undirected :
+  forall (K V E : Type) (keqb : K -> K -> bool),
+       KeqbSpec keqb ->
+       forall (h : heap K V E) (g : graph K) (order : list K),
+       Inv h ->
+       GraphOK h g ->
+       Closed h g ->
+       OrderOK g order ->
+       exists (h' : heap K V E) (g' : graph K),
+         rebuild keqb (fst (decompose keqb h g order)) (snd (decompose keqb h g order)) = DeOk h' g' /\
+         Inv h' /\
+         GraphOK h' g' /\
+         (forall k : K, g_contains keqb g' k = g_contains keqb g k) /\
+         (forall (k : K) (u u' : nat),
+          g_get keqb g k = Some u ->
+          g_get keqb g' k = Some u' ->
+          valof h' u' = valof h u /\
+          Permutation (map (fun p : nat * E => (keyof h' (fst p), snd p)) (outs h' u' ++ ins h' u'))
+            (map (fun p : nat * E => (keyof h (fst p), snd p)) (outs h u ++ ins h u))).
+Proof. exact roundtrip_undirected. Qed.
+Print Assumptions c12_roundtrip_undirected.
+
